@@ -141,7 +141,8 @@ def ser_node(n) -> dict:
         return {"k": k, "body": ser_cond(b) if b else None, "redirects": ser_redirs(n)}
     if k == "arith-cmd":
         e = getattr(n, "expression", None)
-        return {"k": k, "expr": ser_arith(e) if _is_node(e) else None, "redirects": ser_redirs(n)}
+        raw = getattr(n, "raw_content", None)
+        return {"k": k, "expr": ser_arith(e) if _is_node(e) else None, "raw": raw if isinstance(raw, str) else None, "redirects": ser_redirs(n)}
     if k in ("comment", "empty"):
         return {"k": k}
     return {"k": "other", "kind": str(k)}
